@@ -132,47 +132,88 @@ def rhombus_classes(lat, B):
     return out
 
 
+def ser_arrays(pos, edges, crossing, B, use_dirs):
+    line, S = ser_lattice_arrays(pos, edges, crossing)
+    D = 1 << DIR_DEN_BITS
+    dirs = [(int(Fraction(math.cos(2 * math.pi * b / B)) * D), int(Fraction(math.sin(2 * math.pi * b / B)) * D)) for b in range(B)]
+    toks = ["c17", hx(TOL_N), hx(TOL_D), "1" if use_dirs else "0", str(len(dirs))]
+    for x, y in dirs:
+        toks += [hx(x), hx(y)]
+    return " ".join(toks) + " " + line
+
+
+def work(case):
+    """everything that touches koala for one case, in a worker process; returns plain data"""
+    out = {"margin": grid_margin(case)}
+    if out["margin"] < 1e-9:
+        if case["offsets"] == "random_offsets":
+            out["offsets"] = offsets_of(case).tolist()
+        return out
+    try:
+        lat = generate(case)
+    except Exception as e:
+        tb = traceback.extract_tb(e.__traceback__)
+        where = next((f"{os.path.basename(f.filename)}:{f.lineno}" for f in reversed(tb) if "koala" in f.filename), "?")
+        out["exception"] = (type(e).__name__, str(e)[:200], where)
+        return out
+    out["pos"] = np.array(lat.vertices.positions, dtype=float)
+    out["edges"] = np.array(lat.edges.indices, dtype=int).reshape(-1, 2)
+    out["crossing"] = np.array(lat.edges.crossing, dtype=int).reshape(-1, 2)
+    try:
+        out["n_sides"] = [int(p.n_sides) for p in lat.plaquettes]
+    except Exception as e:
+        out["plaq_exception"] = f"{type(e).__name__}: {e}"
+        return out
+    if case["disorder"] == 0:
+        rc = rhombus_classes(lat, case["B"])
+        out["rc"] = rc if rc is not None else "bad"
+    return out
+
+
 def evaluate(ctx, cases, label):
     res, ex = ctx.res, ctx.res.extra
+    from concurrent.futures import ProcessPoolExecutor
+    if len(cases) > 8:
+        with ProcessPoolExecutor(max_workers=8) as pool:
+            results = list(pool.map(work, cases, chunksize=4))
+    else:
+        results = [work(c) for c in cases]
     built, lines = [], []
-    for case in cases:
+    for case, w in zip(cases, results):
         fam = f"B={case['B']}/{case['offsets']}/disorder={case['disorder']}"
-        margin = grid_margin(case)
-        ex["min_grid_margin_evaluated"] = min(ex.get("min_grid_margin_evaluated", 1.0), margin) if margin >= 1e-9 else ex.get("min_grid_margin_evaluated", 1.0)
+        margin = w["margin"]
         if margin < 1e-9:
             if case["offsets"] == "random_offsets":
                 # random_offsets(B) forces sum(offsets) = 1; on 3 bundles that is a singular (all-triple-point) grid:
                 # NOT generic, the property says nothing there (observation outside the property, kept in evidence)
                 res.skip("nongeneric:random_offsets-B3-integer-sum" if case["B"] == 3 else "nongeneric:random_offsets-singular-grid")
                 ex.setdefault("random_offsets_singular_cases", []).append(
-                    {"B": case["B"], "n": case["n"], "np_seed": case["np_seed"], "disorder": case["disorder"], "margin": margin,
-                     "offsets": offsets_of(case).tolist()})
+                    {"B": case["B"], "n": case["n"], "np_seed": case["np_seed"], "disorder": case["disorder"], "margin": margin, "offsets": w.get("offsets")})
             else:
                 res.skip("nongeneric-offsets(three grid lines within 1e-9 of a common point)")
             continue
-        try:
-            lat = generate(case)
-        except Exception as e:
+        ex["min_grid_margin_evaluated"] = min(ex.get("min_grid_margin_evaluated", 1.0), margin)
+        if "exception" in w:
             res.count(fam)
-            tb = traceback.extract_tb(e.__traceback__)
-            where = next((f"{os.path.basename(f.filename)}:{f.lineno}" for f in reversed(tb) if "koala" in f.filename), "?")
-            key = "generator-exception"
-            res.violation(key, f"{describe(case)} raised {type(e).__name__}: {str(e)[:200]} at {where}", case)
-            ex.setdefault("exceptions", {}).setdefault(f"{type(e).__name__}@{where}", []).append(describe(case)) if len(ex.get("exceptions", {}).get(f"{type(e).__name__}@{where}", [])) < 8 else None
+            tname, msg, where = w["exception"]
+            res.violation("generator-exception", f"{describe(case)} raised {tname}: {msg} at {where}", case)
+            lst = ex.setdefault("exceptions", {}).setdefault(f"{tname}@{where}", [])
+            if len(lst) < 8:
+                lst.append(describe(case))
             continue
-        built.append((case, fam, lat))
-        lines.append(ser_case(lat, case["B"], case["disorder"] == 0))
+        built.append((case, fam, w))
+        lines.append(ser_arrays(w["pos"], w["edges"], w["crossing"], case["B"], case["disorder"] == 0))
     outs = run_driver_parallel(ctx.exe["c17"], lines, jobs=8, timeout=6000)
-    for (case, fam, lat), o in zip(built, outs):
+    for (case, fam, w), o in zip(built, outs):
         if "error" in o:
             raise RuntimeError(f"c17 driver error {o['error']} on {case}")
-        nv, ne = lat.n_vertices, lat.n_edges
-        res.count(fam, digest([lat.vertices.positions.tolist(), lat.edges.indices.tolist()]))
+        nv, ne = len(w["pos"]), len(w["edges"])
+        res.count(fam, digest([w["pos"].tolist(), w["edges"].tolist()]))
         res.traces += 1
         b = "V<=100" if nv <= 100 else "V<=300" if nv <= 300 else "V<=1000" if nv <= 1000 else "V>1000"
         ex.setdefault("size_histogram", {}).setdefault(b, 0)
         ex["size_histogram"][b] += 1
-        res.sample({"case": case, "V": nv, "E": ne, "F": lat.n_plaquettes})
+        res.sample({"case": case, "V": nv, "E": ne, "F": len(w.get("n_sides", []))})
         if o["ok"][0] != "1":
             failed = [k for k in ("wf", "zero_crossing", "no_self_loops", "distinct", "degrees", "in_square", "connected", "no_crossing",
                                   "lengths", "directions", "faces") if o.get(k, ["1"])[0] != "1"]
@@ -186,21 +227,19 @@ def evaluate(ctx, cases, label):
             res.violation("not-a-rhombus-tiling:" + "+".join(failed), f"{describe(case)}: checker rejects the output lattice: failed {failed}{extra}", case)
             continue
         # koala's own plaquettes agree with the census the checker used
-        try:
-            ns = [int(p.n_sides) for p in lat.plaquettes]
-        except Exception as e:
-            res.violation("plaquettes-exception", f"{describe(case)}: accessing plaquettes raised {type(e).__name__}: {e}", case)
+        if "plaq_exception" in w:
+            res.violation("plaquettes-exception", f"{describe(case)}: accessing plaquettes raised {w['plaq_exception']}", case)
             continue
+        ns = w["n_sides"]
         if any(n != 4 for n in ns) or nv - ne + len(ns) != 1:
             res.violation("koala-plaquettes", f"{describe(case)}: koala reports plaquettes with sides {sorted(set(ns))}, V-E+F={nv - ne + len(ns)}", case)
         if case["disorder"] == 0:
-            rc = rhombus_classes(lat, case["B"])
-            if rc is None:
+            rc = w.get("rc")
+            if rc == "bad":
                 res.violation("rhombus-directions", f"{describe(case)}: a plaquette does not have exactly two edge directions", case)
-            else:
-                ex.setdefault("rhombus_angles_by_B", {}).setdefault(str(case["B"]), {})
+            elif rc is not None:
+                d = ex.setdefault("rhombus_angles_by_B", {}).setdefault(str(case["B"]), {})
                 for k, v in rc.items():
-                    d = ex["rhombus_angles_by_B"][str(case["B"])]
                     d[str(k)] = d.get(str(k), 0) + v
                 if case["B"] == 5 and not set(rc) <= {36, 72}:
                     res.violation("penrose-rhombi", f"{describe(case)}: rhombus acute angles {sorted(rc)} (expected only 36 and 72 degrees)", case)
@@ -218,27 +257,32 @@ def gen_cases(tier, seed, big=False):
     rng = np.random.default_rng([seed, 17])
     cases = []
     if tier == "quick":
-        Bs, ns, reps = (3, 5, 7), (5, 6, 7, 8), 1
+        combos = [(B, n) for B in (3, 5, 7) for n in (5, 6, 7, 8)]
+        reps, pen_ns, pen_reps = 2, (5, 6, 7, 8), 6
     else:
-        Bs, ns, reps = (3, 5, 7, 9), tuple(range(5, 15)), 3
-    for B in Bs:
-        for n in ns:
-            if tier != "quick" and B == 9 and n > 10:
-                continue
+        # sizes chosen so that the extracted checker (quadratic in E) stays within the thorough budget
+        combos = ([(3, n) for n in range(5, 15)] + [(5, n) for n in range(5, 12)] + [(7, n) for n in range(5, 10)] + [(9, n) for n in range(5, 8)])
+        reps, pen_ns, pen_reps = 2, tuple(range(5, 12)), 8
+    for B, n in combos:
+        cases.append({"B": B, "n": n, "offsets": "default", "disorder": 0, "np_seed": 0})
+        for _ in range(reps):
+            cases.append({"B": B, "n": n, "offsets": "scalar", "value": round(float(rng.uniform(-0.45, 0.45)), 3), "disorder": 0, "np_seed": 0})
+            for kind in ("random_offsets", "generic"):
+                for dis in (0, 0.02, 0.1):
+                    cases.append({"B": B, "n": n, "offsets": kind, "disorder": dis, "np_seed": int(rng.integers(0, 2 ** 31))})
+    if tier != "quick":
+        # a few large ones (default offsets and one generic vector each)
+        for B, n in ((5, 14), (7, 12), (9, 10), (5, 13)):
             cases.append({"B": B, "n": n, "offsets": "default", "disorder": 0, "np_seed": 0})
-            for _ in range(reps):
-                cases.append({"B": B, "n": n, "offsets": "scalar", "value": round(float(rng.uniform(-0.45, 0.45)), 3), "disorder": 0, "np_seed": 0})
-                for kind in ("random_offsets", "generic"):
-                    for dis in (0, 0.02, 0.1):
-                        cases.append({"B": B, "n": n, "offsets": kind, "disorder": dis, "np_seed": int(rng.integers(0, 2 ** 31))})
-    for n in ns:
-        for _ in range(4 * reps):
+            cases.append({"B": B, "n": n, "offsets": "generic", "disorder": 0, "np_seed": int(rng.integers(0, 2 ** 31))})
+    for n in pen_ns:
+        for _ in range(pen_reps):
             cases.append({"B": 5, "n": n, "offsets": "penrose", "disorder": 0, "np_seed": int(rng.integers(0, 2 ** 31))})
     return cases
 
 
 def run(ctx):
-    ctx.res.rule = ("number_of_bundles in {3,5,7} (thorough: 9 too), lines 5..8 (thorough 5..14), offsets default / random scalar / random_offsets / generic uniform vectors, "
+    ctx.res.rule = ("number_of_bundles in {3,5,7} (thorough: 9 too), lines 5..8 (thorough: B=3 5..14, B=5 5..11, B=7 5..9, B=9 5..7 and single large cases (5,14),(5,13),(7,12),(9,10)), offsets default / random scalar / random_offsets / generic uniform vectors, "
                     "angle_disorder 0/0.02/0.1, penrose_tiling(n) under np.random.seed(s); every case is a distinct output lattice (hash of positions+edges) and non-trivial (>= 30 rhombi)")
     evaluate(ctx, gen_cases(ctx.tier, ctx.seed), "S")
 
